@@ -61,14 +61,12 @@ func (d *stringDecoder) Decode(ctx *RuntimeContext, cursor, depth int64, p unsaf
 }
 
 func (d *stringDecoder) DecodePath(ctx *RuntimeContext, cursor, depth int64) ([][]byte, int64, error) {
-	bytes, c, err := d.decodeByte(ctx.Buf, cursor)
+	// a selector is still to be applied and a string has no members or elements: nothing is selected
+	_, c, err := d.decodeByte(ctx.Buf, cursor)
 	if err != nil {
 		return nil, 0, err
 	}
-	if bytes == nil {
-		return [][]byte{nullbytes}, c, nil
-	}
-	return [][]byte{bytes}, c, nil
+	return nil, c, nil
 }
 
 var (
